@@ -675,17 +675,24 @@ def dedup_order_by(
 # the user to come up with dummy names that are not required later anymore. It has
 # to be done before a join so that all column references in the join subtrees remain
 # valid.
-def create_aliases(nd: AstNode, num_occurrences: dict[str, int]) -> dict[str, int]:
+def create_aliases(nd: AstNode, num_occurrences: dict[str, int], taken: set[str] | None = None) -> dict[str, int]:
+    if taken is None:
+        # a generated alias (`T_1`) must not be the name of another table of the query
+        taken = {leaf.table.name for leaf in nd.iter_subtree_postorder() if isinstance(leaf, TableImpl)}
+
     if isinstance(nd, verbs.Verb):
-        num_occurrences = create_aliases(nd.child, num_occurrences)
+        num_occurrences = create_aliases(nd.child, num_occurrences, taken)
 
         if isinstance(nd, verbs.Join | verbs.Union):
-            num_occurrences = create_aliases(nd.right, num_occurrences)
+            num_occurrences = create_aliases(nd.right, num_occurrences, taken)
 
     elif isinstance(nd, TableImpl):
         table_name = nd.table.name
         if cnt := num_occurrences.get(table_name):
-            nd.table = nd.table.alias(f"{table_name}_{cnt}")
+            while (alias := f"{table_name}_{cnt}") in taken:
+                cnt += 1
+            taken.add(alias)
+            nd.table = nd.table.alias(alias)
         else:
             # always set alias to shorten queries with schemas
             nd.table = nd.table.alias(table_name)
